@@ -113,7 +113,7 @@ def check_sequential(rep, byname):
     import bromelia.base as base
     from bromelia.base import DiameterRequest
     maxops = 3 if rep.tier == "quick" else 4
-    srclen = 4 if rep.tier == "quick" else 6
+    srclen = 4 if rep.tier == "quick" else 5
     defs = f"""
 Threads == {{1}}
 Vals == {{1, 2, 3}}
@@ -294,7 +294,7 @@ def check_concurrent(rep):
     rep.notes["lock_free_variant_violates"] = "Distinct"
     # executions
     rng = random.Random(rep.seed * 7919 + 150)
-    nruns = 300 if rep.tier == "quick" else 6000
+    nruns = 300 if rep.tier == "quick" else 3000
     traces, metas = [], []
     try:
         for i in range(nruns):
